@@ -247,7 +247,12 @@ IterPost(since, lr) ==
 PostConnect == IterPost(ct.tok, {})                                  \* late-sequence feeds are registered at the current end
 Connect == "ct" \in Clients /\ ~ct.on /\ SetImpl(PostConnect) /\ UNCHANGED env /\ GhostResp("ct")
 PostIter == IterPost(ct.since, {late[i] : i \in (ct.lpos + 1)..Len(late)})
-Iter == "ct" \in Clients /\ ct.on /\ wake /\ SetImpl(PostIter) /\ UNCHANGED env /\ GhostResp("ct")
+(* The intended variant of F-a (ContKeepsLow) needs a second half: the low sequence also moves WITHOUT any document being
+   forwarded - by abandonment, or by a late unused-sequence notice - and neither notifies the channels a feed waits on.  A feed
+   that is holding back a low part therefore polls: it iterates as soon as the low sequence is no longer its low part
+   (TLC: NoLostChange fails for ContKeepsLow without this; as coded the question does not arise, the low part is gone). *)
+LowMoved == ContKeepsLow /\ ct.since.l # 0 /\ ct.since.l # Low
+Iter == "ct" \in Clients /\ ct.on /\ (wake \/ LowMoved) /\ SetImpl(PostIter) /\ UNCHANGED env /\ GhostResp("ct")
 PostDisconnect == [CurI EXCEPT !.ct = [@ EXCEPT !.on = FALSE]]
 Disconnect == AllowReconnect /\ ct.on /\ SetImpl(PostDisconnect) /\ UNCHANGED env /\ UNCHANGED ghost
 
